@@ -176,7 +176,8 @@ impl C03 {
 
 enum Plan {
     /// (query, expected exact raw value or float approx, round-trip query)
-    Exact { q: String, want: Option<Rat>, fwant: f64, back: Option<String> },
+    /// tdims: the target's dimensionality where the reply's own naming of the target is judged too
+    Exact { q: String, want: Option<Rat>, fwant: f64, back: Option<String>, tdims: Option<Dims> },
     Refuse { q: String, left: Dims, right: Dims },
     AnyErr { q: String },
     /// target name has several readings (competing prefixes): value must match one of them
@@ -202,9 +203,9 @@ impl C03 {
                         }
                         let x = uv / tv;
                         let back = format!("{} {} -> {}", rat_text(&x), regdump::q(&t.name), regdump::q(&u.name));
-                        Plan::Exact { q, want: Some(x), fwant: 0.0, back: if uv.is_zero() { None } else { Some(back) } }
+                        Plan::Exact { q, want: Some(x), fwant: 0.0, back: if uv.is_zero() { None } else { Some(back) }, tdims: None }
                     }
-                    _ => Plan::Exact { q, want: None, fwant: u.fvalue / t.fvalue, back: None },
+                    _ => Plan::Exact { q, want: None, fwant: u.fvalue / t.fvalue, back: None, tdims: None },
                 }
             }
             1 => {
@@ -282,7 +283,7 @@ impl C03 {
                 };
                 let q = format!("1 {}^{} -> {}^{}", regdump::q(&t.name), p, regdump::q(&name), p);
                 match pow_rat(&(tv / pv), p) {
-                    Some(x) => Plan::Exact { q, want: Some(x), fwant: 0.0, back: None },
+                    Some(x) => Plan::Exact { q, want: Some(x), fwant: 0.0, back: None, tdims: None },
                     None => Plan::Skip("power not computable"),
                 }
             }
@@ -298,7 +299,7 @@ impl C03 {
                 if tv.is_zero() {
                     return Plan::AnyErr { q };
                 }
-                Plan::Exact { q, want: Some(v * sv / tv), fwant: 0.0, back: None }
+                Plan::Exact { q, want: Some(v * sv / tv), fwant: 0.0, back: None, tdims: Some(td) }
             }
         }
     }
@@ -414,9 +415,31 @@ impl Space for C03 {
         let ctx = self.ctx.get(fresh_ctx);
         match plan {
             Plan::Skip(w) => CaseOut::ok(format!("skipped: {}", w)),
-            Plan::Exact { q, want, fwant, back } => {
+            Plan::Exact { q, want, fwant, back, tdims } => {
                 let mut out = CaseOut::ok("converted").key(hash64(&q));
-                match conv_raw(&eval_q(ctx, &q)) {
+                let reply = eval_q(ctx, &q);
+                // x is reported *of something*: the units the reply names, with their powers, must have
+                // the target's dimensionality (a unit that cancels out of the target is not part of it)
+                if let (Some(td), Ok(QueryReply::Conversion(c))) = (&tdims, &reply) {
+                    if let Some(named) = &c.value.raw_unit {
+                        let mut nd = Dims::new();
+                        let mut known = true;
+                        for (name, pow) in named.iter() {
+                            let readings = dump.resolve(&name.to_string());
+                            match readings.first() {
+                                Some(r) => nd = dims_mul(&nd, &dims_pow(&r.dims, *pow), 1),
+                                None => known = false,
+                            }
+                        }
+                        if known && &nd != td {
+                            out = out.viol(
+                                "the target named in the reply is not the target asked for",
+                                format!("`{}` names {} in its reply, which is {} - the target is {}", q, named.iter().map(|(k, p)| format!("{}^{}", k, p)).collect::<Vec<_>>().join(" "), dims_str(&nd), dims_str(td)),
+                            );
+                        }
+                    }
+                }
+                match conv_raw(&reply) {
                     Ok(raw) => {
                         if !raw.unit.is_empty() {
                             out = out.viol("conversion result carries a unit", format!("`{}` -> {:?}", q, dims_of(&raw)));
